@@ -323,3 +323,24 @@ def runtime_replacement_is_instance_local(ctx):
     for t, v, s in stores:
         if src(t.value) in ('type(self)', 'self.__class__', 'cls') or (isinstance(t.value, ast.Name) and t.value.id[:1].isupper()):
             ctx.bad(f'{f.qualname}:store {src(t)}', s, 'a class attribute is modified at run time', f)
+
+
+@rule('C09.R6', min_instances=2)
+def inheritance_merge_reads_own_properties_only(ctx):
+    """Accessible.updateProperties (what a class contributes to its subclasses) is a function of ownProperties: it must not
+    look at propertyValues, which also hold what was merged in from other classes"""
+    m = ctx.m
+    n = 0
+    for cname in (roles.PARAMETER, roles.COMMAND):
+        f = m.cls(cname).methods.get('updateProperties')
+        if f is None:
+            continue
+        n += 1
+        ctx.analysed(f)
+        bad = [x for x in body_walk(f.node) if (isinstance(x, ast.Attribute) and x.attr == 'propertyValues' and dotted(x.value) == 'self') or
+               (isinstance(x, ast.Call) and call_attr(x) in ('hasDatatype', 'getProperties', 'as_dict') and dotted(x.func.value) == 'self')]
+        ctx.check(not bad, f'{f.qualname}:reads ownProperties only', f.node, 'only self.ownProperties / self.propertyDict are read',
+                  f'`{src(bad[0]) if bad else ""}` makes the contribution of this accessible depend on merged (inherited) property values: after a later '
+                  'class definition re-merges it, an override like Parameter(min=1) starts to wipe the datatype properties of its bases', f)
+    if not n:
+        raise AnchorMissing('updateProperties not found')
